@@ -960,13 +960,17 @@ def c17_extra(ctx, cases):
 def spec_c17(c):
     if c["stream"] == "solve" and has(c, SOLVE, "class", "found") and not has(c, SOLVE, "hard", "score"):
         return "C17: the assignment reported with a room list is not hard-feasible or its score is not the recomputed one (so it may exceed the optimum)"
+    if c["stream"] == "gate" and (c["code"] & 2) and not (c["code"] & 4):
+        return "C17: the room stage of a well-formed subproblem produces a child that cancels a fixed / enforced course or shrinks a course below its " \
+               "minimum size: what is found below it is not hard-feasible, so its score is not bounded by the optimum without room limits"
     return None
 
 
 def streams_c17(ctx, scale, off):
     s1, c1 = solve_stream(ctx, ctx.seed + off, 150 * scale, rooms=0, scheds=2, c17=1, max_c=5, max_p=7)
     s2, c2 = node_stream(ctx, ctx.seed + off + 1, 240 * scale, rooms=1, max_c=9, max_p=10)
-    return [s1, s2], c1 + c2
+    s3, c3 = gate_stream(ctx, ctx.seed + off + 9, 400 * scale)
+    return [s1, s2, s3], c1 + c2 + c3
 
 
 # ---- C15 / C16: malformed input and output faults on the real binary
